@@ -187,6 +187,66 @@ pub fn run(tier: Tier) -> Report {
             }
         }
     }
+    // three pictures: a reference of size A, a predicted / disposable picture of size B made of
+    // intra macroblocks only (the one way a non-key picture can change the size), then a picture of
+    // size A or B with nothing coded / no data / some inter macroblocks. Whatever is accepted must
+    // satisfy the plane relations of the size it reports.
+    let mut n_three = 0u64;
+    let sz3: [(u16, u16); 5] = [(16, 16), (32, 16), (16, 32), (24, 24), (17, 3)];
+    let mut work3 = vec![];
+    for &a in &sz3 {
+        for &b in &sz3 {
+            if a == b {
+                continue;
+            }
+            for k2 in [1u8, 2] {
+                for third_is_b in [false, true] {
+                    for k3 in [1u8, 2] {
+                        for body in 0..3usize {
+                            work3.push((a, b, k2, third_is_b, k3, body));
+                        }
+                    }
+                }
+            }
+        }
+    }
+    work3.par_iter().for_each(|&((wa, ha), (wb, hb), k2, third_is_b, k3, body)| {
+        let mut d = Dec::new(1);
+        let feed = |d: &mut Dec, p: &Pic| -> Outcome {
+            let bytes = encode_bytes(p);
+            d.fed.push(bytes.clone());
+            decode_bytes(&mut d.st, &bytes)
+        };
+        if !feed(&mut d, &coded_intra(shdr(wa, ha, 0, 0, 7, 0))).is_ok() {
+            return;
+        }
+        let (mbw, mbh) = mb_grid(wb, hb);
+        let second = Pic { hdr: shdr(wb, hb, k2, 1, 9, 0), mbs: (0..mbw * mbh).map(|i| Mb::intra_flat(60 + (i * 9 % 120) as u8)).collect() };
+        match feed(&mut d, &second) {
+            Outcome::Panic(pm) => {
+                rep.violation(&panic_sig(&pm), format!("all-intra {wb}x{hb} picture (type {k2}) after a {wa}x{ha} reference: {pm}"), d.replay("size change through an all-intra picture"));
+                return;
+            }
+            Outcome::Ok => post_process(&rep, &d.st, &format!("all-intra {wb}x{hb} picture (type {k2}) after a {wa}x{ha} reference"), d.replay("size change through an all-intra picture")),
+            Outcome::Err(_) => {}
+        }
+        let (wc, hc) = if third_is_b { (wb, hb) } else { (wa, ha) };
+        let (mbw, mbh) = mb_grid(wc, hc);
+        let mbs: Vec<Mb> = match body {
+            0 => (0..mbw * mbh).map(|_| Mb::NotCoded).collect(),
+            1 => vec![],
+            _ => (0..mbw * mbh).map(|i| if i % 2 == 0 { Mb::inter((1, -1)) } else { Mb::NotCoded }).collect(),
+        };
+        match feed(&mut d, &Pic { hdr: shdr(wc, hc, k3, 2, 9, 0), mbs }) {
+            Outcome::Panic(pm) => rep.violation(&panic_sig(&pm), format!("{wc}x{hc} picture (type {k3}, body {body}) after [{wa}x{ha} I, {wb}x{hb} all-intra type {k2}]: {pm}"), d.replay("three pictures, two sizes")),
+            Outcome::Ok => post_process(&rep, &d.st, &format!("{wc}x{hc} picture (type {k3}, body {body}) after [{wa}x{ha} I, {wb}x{hb} all-intra type {k2}]"), d.replay("three pictures, two sizes")),
+            Outcome::Err(_) => {}
+        }
+    });
+    n_three += work3.len() as u64;
+    rep.add_transitions(3 * n_three);
+    rep.add_states(n_three);
+    rep.extra("three_picture_size_histories", json!(n_three));
     rep.add_transitions(2 * n_sc);
     rep.add_states(n_sc);
     // standard mode: custom sizes (multiples of 4) and sub-QCIF
